@@ -56,9 +56,23 @@ func NewMemProvider() *MemTopics {
 }
 
 // Subscribe implements Provider.
+// errSysTopic is returned for names in the $-prefixed system topic space,
+// which this provider does not support. Only the first character of the whole
+// name matters: '$' has no special meaning inside or at the start of any other
+// topic level.
+var errSysTopic = fmt.Errorf("memtopics: Cannot subscribe or publish to $ topics")
+
+func sysTopic(topic []byte) bool {
+	return len(topic) > 0 && topic[0] == '$'
+}
+
 func (mt *MemTopics) Subscribe(topic []byte, qos byte, sub interface{}) (byte, error) {
 	if !message.ValidQos(qos) {
 		return message.QosFailure, fmt.Errorf("Invalid QoS %d", qos)
+	}
+
+	if sysTopic(topic) {
+		return message.QosFailure, errSysTopic
 	}
 
 	if sub == nil {
@@ -81,6 +95,10 @@ func (mt *MemTopics) Subscribe(topic []byte, qos byte, sub interface{}) (byte, e
 
 // Unsubscribe implements Provider.
 func (mt *MemTopics) Unsubscribe(topic []byte, sub interface{}) error {
+	if sysTopic(topic) {
+		return errSysTopic
+	}
+
 	mt.smu.Lock()
 	defer mt.smu.Unlock()
 
@@ -91,6 +109,10 @@ func (mt *MemTopics) Unsubscribe(topic []byte, sub interface{}) error {
 func (mt *MemTopics) Subscribers(topic []byte, qos byte, subs *[]interface{}, qoss *[]byte) error {
 	if !message.ValidQos(qos) {
 		return fmt.Errorf("Invalid QoS %d", qos)
+	}
+
+	if sysTopic(topic) {
+		return errSysTopic
 	}
 
 	mt.smu.RLock()
@@ -104,6 +126,10 @@ func (mt *MemTopics) Subscribers(topic []byte, qos byte, subs *[]interface{}, qo
 
 // Retain implements Provider.
 func (mt *MemTopics) Retain(msg *message.PublishMessage) error {
+	if sysTopic(msg.Topic()) {
+		return errSysTopic
+	}
+
 	mt.rmu.Lock()
 	defer mt.rmu.Unlock()
 
@@ -119,6 +145,10 @@ func (mt *MemTopics) Retain(msg *message.PublishMessage) error {
 
 // Retained implements Provider.
 func (mt *MemTopics) Retained(topic []byte, msgs *[]*message.PublishMessage) error {
+	if sysTopic(topic) {
+		return errSysTopic
+	}
+
 	mt.rmu.RLock()
 	defer mt.rmu.RUnlock()
 
@@ -485,8 +515,8 @@ func nextTopicLevel(topic []byte) ([]byte, []byte, error) {
 			s = stateSWC
 
 		case '$':
-			if i == 0 {
-				return nil, nil, fmt.Errorf("memtopics/nextTopicLevel: Cannot publish to $ topics")
+			if s == stateMWC || s == stateSWC {
+				return nil, nil, fmt.Errorf("memtopics/nextTopicLevel: Wildcard characters '#' and '+' must occupy entire topic level")
 			}
 
 			s = stateSYS
